@@ -86,7 +86,7 @@ def _run_task(t):
         E.inconclusive = []
         E.obs_samples = []
         E.obs_budget = max_samples
-        E.xcheck_budget = int(opts.get('xcheck', _W['base'].get('xcheck', 0)))
+        E.xcheck_budget = int(opts.get('xcheck', _W['base'].get('xcheck', 0))) if prefixes is None else 0
         left = E.explore(root, args, deadline=time.time() + slice_s, prefixes=prefixes)
         st = E.stats
         return {
